@@ -113,4 +113,29 @@ CropDecisionOK(b, W, H, Q, zeroDst, r) ==
     THEN r = "ok"
     ELSE CropVariantOK(b, W, H, Q, r)
 
+-----------------------------------------------------------------------------
+(* C15: the crop that fits the source into the destination's aspect ratio.  *)
+(* Ideal (exact rational) definition; all four results are fractions over   *)
+(* small integers, kept as numerator/denominator pairs.                     *)
+(* centering c = cn/cq (already clamped to [0, 1]).                         *)
+
+Clamp01(n, q) == IF n < 0 THEN <<0, 1>> ELSE IF n > q THEN <<1, 1>> ELSE <<n, q>>
+
+\* native integers: valid for sizes whose products stay below 2^31 (model checking);
+\* the trace specification evaluates the same relations with Wide/dyadic numbers.
+FitWider(sw, sh, dw, dh) == sw * dh >= dw * sh          \* source is wider than needed
+FitEqual(sw, sh, dw, dh) == sw * dh = dw * sh
+\* crop width and height as fractions <<num, den>>
+FitW(sw, sh, dw, dh) == IF FitWider(sw, sh, dw, dh) THEN <<dw * sh, dh>> ELSE <<sw, 1>>
+FitH(sw, sh, dw, dh) == IF FitWider(sw, sh, dw, dh) THEN <<sh, 1>> ELSE <<sw * dh, dw>>
+\* left = (sw - cropw) * cx
+FitL(sw, sh, dw, dh, cxn, cxq) ==
+    LET w == FitW(sw, sh, dw, dh) IN <<(sw * w[2] - w[1]) * cxn, w[2] * cxq>>
+FitT(sw, sh, dw, dh, cyn, cyq) ==
+    LET h == FitH(sw, sh, dw, dh) IN <<(sh * h[2] - h[1]) * cyn, h[2] * cyq>>
+
+FracLe(a, b) == a[1] * b[2] <= b[1] * a[2]      \* positive denominators
+FracAdd(a, b) == <<a[1] * b[2] + b[1] * a[2], a[2] * b[2]>>
+FracEq(a, b) == a[1] * b[2] = b[1] * a[2]
+
 =============================================================================
